@@ -506,6 +506,16 @@ fn process_tags(
     while !tags.is_empty() && remain.len() != tags.len() {
         for (idx, t) in &mut tags.iter_mut() {
             let idx = idx.clone();
+            // An id is evaluated once, here, and the result kept: the element is
+            // registered under it now, and evaluating it again when the element is
+            // processed could give another value (e.g. with a random function).
+            if let Some(el) = t.element_mut() {
+                if let Some(id) = el.get_attr("id") {
+                    if let Ok(value) = eval_attr(&id, context) {
+                        el.set_attr("id", &value);
+                    }
+                }
+            }
             let el = if let Some(el) = t.get_element() {
                 // update early so reuse targets are available even if the element
                 // is not ready (e.g. within a specs block)
